@@ -178,8 +178,12 @@ def run(tier: str) -> int:
             (d / f"cfg{k}.yaml").write_text(yaml.safe_dump({"pipeline": {"nodes": nodes}}, sort_keys=False))
             for seed, cwd in (("0", str(core.REPO)), ("1", str(d)), ("random", "/")):
                 env = dict(os.environ, PYTHONHASHSEED=seed)
-                p = subprocess.run([sys.executable, str(d / "child.py"), str(d / f"cfg{k}.yaml")], capture_output=True, text=True,
-                                   env=env, cwd=cwd, timeout=120)
+                try:
+                    p = subprocess.run([sys.executable, str(d / "child.py"), str(d / f"cfg{k}.yaml")], capture_output=True, text=True,
+                                       env=env, cwd=cwd, timeout=600)
+                except subprocess.TimeoutExpired:
+                    rep.notes.append("a fresh-process run did not finish within 600 s (loaded machine): skipped")
+                    continue
                 stats["subprocess_runs"] += 1
                 line = next((l for l in p.stdout.splitlines() if l.startswith("IDS ")), None)
                 if line is None:
